@@ -9,6 +9,27 @@ From DV Require Import Gen.C18_gen Proofs.C18_gen_equiv Proofs.C18_gen_thms.
 Import ListNotations.
 Local Open Scope Z_scope.
 
+Theorem C18_gen_methods_are_model :
+  (forall fuel uid infos l, wf_dict infos -> opt_of (gen_record fuel uid infos l) = lb_record fuel uid infos l) /\
+  (forall i l, gen_pop i l = lb_pop i l) /\
+  (forall i l, gen_delitem (KInt i) l = lb_delitem i l) /\
+  (forall a b c l, gen_delitem (KSlice a b c) l = lb_delslice a b c l) /\
+  (forall l, gen_stream l = lb_stream l) /\
+  (forall names l, gen_select names l = (l, Ok (lb_select names l))).
+Proof. exact gen_methods_are_model. Qed.
+Print Assumptions C18_gen_methods_are_model.
+
+Theorem C18_gen_stats_methods_are_model : forall (A B C Args : Type),
+  (forall nm (f : Args -> list B -> C) a (s : stats A B C), gen_st_register nm f a s = (st_register nm f a s, Ok tt)) /\
+  (forall data (s : stats A B C), NoDup (map fst (s_funs s)) -> gen_st_compile data s = (s, Ok (st_compile s data))) /\
+  (forall data (m : mstats A B C), NoDup (map fst m) -> funs_distinct m ->
+     gen_ms_compile data m = (m, Ok (ms_compile m data))) /\
+  (forall nm (f : Args -> list B -> C) a (m : mstats A B C), gen_ms_register nm f a m = (ms_register nm f a m, Ok tt)).
+Proof. exact gen_stats_methods_are_model. Qed.
+Print Assumptions C18_gen_stats_methods_are_model.
+
+(* wf_hist h: the keyword dictionaries of the record operations have distinct keys at every level (wf_dict), as
+   every Python dict has *)
 Theorem C18_gen_history_is_model : forall h s, wf_hist h ->
   gen_run s h = run s h /\ gen_final s h = final s h /\ gen_outs s h = outs s h.
 Proof. exact gen_history_is_model. Qed.
